@@ -91,91 +91,84 @@ def run(F, R, tier):
     eb = M.ExprBuilder(F)
 
     # ---------------------------------------------------------------- R1 masks, R3 geometry (T14, T7)
-    r1 = R.rule("C12-R1", "T14", "set/clear/test masks are one bit and its exact complement for every bit offset")
-    r3 = R.rule("C12-R3", "T7", "geometry: byte = index / 8, bit offset = index % 8, len = bytes * 8; get and set use the same mask base")
-    setb = F.mir(SL + "::set_unchecked")
-    getb = F.mir(SL + "::get_unchecked")
-    if r1.anchor(setb, SL + "::set_unchecked") and r1.anchor(getb, SL + "::get_unchecked"):
-        sites = _mask_sites(F, setb, ("BitOr", "BitAnd", "BitXor"))
-        # which branch of `value` each store is on
-        atoms = M.switch_atoms(setb, lambda root, body: "value" if root[0] == "local" and body.local_name(root[1]) == "value" else None)
-        vals = M.path_valuations(setb, atoms, [bi for bi, _, _, _ in sites])
-        set_mask = clear_mask = None
-        for bi, op, idx_e, mask_e in sites:
-            vs = vals.get(bi, set())
-            pol = {dict(v).get("value") for v in vs}
-            r1.site("store `byte %s= %s`" % ({"BitOr": "|", "BitAnd": "&", "BitXor": "^"}[op], M.expr_str(mask_e)), setb.term(bi).get("sp"),
-                    value_branch=sorted(str(p) for p in pol))
-            if pol == {True} and op == "BitOr":
-                set_mask = (idx_e, mask_e)
-            elif pol == {False} and op == "BitAnd":
-                clear_mask = (idx_e, mask_e)
-            else:
-                r1.fail(("set_unchecked", "unexpected-store", op), "store with operator %s on value-branch %s is not the set(|=)/clear(&=) pair" % (op, pol))
-        r1.floor(2)
-        # test mask in get_unchecked: result = BitAnd(byte, mask) != 0
-        test = None
-        ret = eb.ret_expr(getb, None, 0, frozenset())
-        if ret is not None and ret[0] == "bin" and ret[1] in ("Ne", "Eq"):
-            a, b = ret[2], ret[3]
-            nz, other = (a, b) if (b[0] == "const" and b[1] == 0) else (b, a)
-            if other[0] == "const" and other[1] == 0 and nz[0] == "bin" and nz[1] == "BitAnd":
-                x, y = nz[2], nz[3]
-                msk, byte = (x, y) if "index" in (y[0], ) or y[0] in ("index", "load", "field", "proj") else (y, x)
-                if ret[1] == "Ne":
-                    test = (byte, msk)
-        if test is None:
-            r1.fail(("get_unchecked", "shape"), "cannot extract `byte & mask != 0` from get_unchecked (got %s)" % (M.expr_str(ret) if ret else None))
-        else:
-            r1.site("test `byte & %s != 0`" % M.expr_str(test[1]), getb.rec["span"])
-        if set_mask and clear_mask and test:
-            bad = []
-            seen_bits = {}
-            for index in range(0, 64):
-                env = {"index": index}
-                s = M.eval_expr(set_mask[1], env)
-                c = M.eval_expr(clear_mask[1], env)
-                t = M.eval_expr(test[1], env)
-                if s is None or c is None or t is None:
-                    r1.fail(("masks", "not-foldable"), "mask expression does not fold to a constant for index=%d: set=%s clear=%s test=%s" % (
-                        index, M.expr_str(set_mask[1]), M.expr_str(clear_mask[1]), M.expr_str(test[1])))
+    r1 = R.rule("C12-R1", "T14", "set_unchecked / get_unchecked evaluated concretely: writing a value to entry i turns exactly bit i of the store into that value and leaves every other bit as it was; reading entry i gives bit i — for every bit offset, both values, and byte contents covering every bit pattern around the addressed bit")
+    r3 = R.rule("C12-R3", "T7", "geometry: entry i lives in byte i / 8 at mask 0x80 >> (i % 8) (most significant bit first) for set and get alike; len = bytes * 8")
+    sfn, gfn, lfn = SL + "::set_unchecked", SL + "::get_unchecked", SL + "::len"
+    if r1.anchor(F.hir(sfn), sfn) and r1.anchor(F.hir(gfn), gfn):
+        ev1 = sym.Evaluator(F, inline_depth=4, concrete_vec=True)
+        byte_values = list(range(256)) if tier != "quick" else [0x00, 0xFF, 0xA5, 0x5A, 0x80, 0x01, 0x7F, 0xFE, 0x10, 0xEF, 0x33, 0xCC]
+        NB = 3
+
+        def run(fn_, store, *rest):
+            st = sym.St(SL, {"0": list(store)})
+            try:
+                ps = [q for q in ev1.explore(fn_, args=lambda: [st] + list(rest), max_paths=20)]
+            except (sym.Abort, sym.TooManyPaths) as e:
+                return None, None, str(e)
+            if len(ps) != 1 or not ps[0].complete:
+                return None, None, "%d path(s)%s" % (len(ps), "" if not ps or ps[0].complete else ": " + str(ps[0].note))
+            return ps[0], st.f["0"], None
+        n_set = n_get = 0
+        stop = False
+        for bv in byte_values:
+            for i in range(8 * NB):
+                base = [bv ^ (0x3C * k_ & 0xFF) for k_ in range(NB)]          # different contents in the neighbouring bytes
+                want_bit = 0x80 >> (i % 8)
+                # read
+                q, _, why = run(gfn, base, i)
+                if q is None:
+                    r1.fail(("get_unchecked", "shape"), "get_unchecked could not be evaluated on a concrete store: %s" % why)
+                    stop = True
                     break
-                off = index % 8
-                if bin(s).count("1") != 1 or s > 0xFF:
-                    bad.append("offset %d: set mask 0x%02x is not a single bit" % (off, s))
-                if c != (0xFF ^ s):
-                    bad.append("offset %d: clear mask 0x%02x is not the complement of the set mask 0x%02x (expected 0x%02x)" % (off, c, s, 0xFF ^ s))
-                if t != s:
-                    bad.append("offset %d: test mask 0x%02x differs from set mask 0x%02x" % (off, t, s))
-                if seen_bits.setdefault(off, s) != s:
-                    bad.append("offset %d: mask not a function of index %% 8" % off)
-            for off in range(8):
-                for off2 in range(off + 1, 8):
-                    if off in seen_bits and off2 in seen_bits and seen_bits[off] == seen_bits[off2]:
-                        bad.append("offsets %d and %d share mask 0x%02x" % (off, off2, seen_bits[off]))
-            if bad:
-                uniq = sorted(set(bad))
-                r1.fail(("set_unchecked", "clear-mask" if any("clear" in b for b in uniq) else "mask"),
-                        "bit masks are not independent single bits: " + "; ".join(uniq[:4]) + (" …(%d more)" % (len(uniq) - 4) if len(uniq) > 4 else ""),
-                        setb.rec["span"])
-            # geometry
-            for nm, e in (("set", set_mask[0]), ("clear", clear_mask[0])):
-                ok = all(M.eval_expr(e, {"index": i}) == i // 8 for i in range(0, 200))
-                r3.site("%s: byte index = %s" % (nm, M.expr_str(e)))
-                r3.require(ok, ("byte-index", nm), "byte index expression %s is not index / 8" % M.expr_str(e))
-            if test[0][0] == "index":
-                e = test[0][2]
-                r3.site("get: byte index = %s" % M.expr_str(e))
-                r3.require(all(M.eval_expr(e, {"index": i}) == i // 8 for i in range(0, 200)), ("byte-index", "get"), "get_unchecked byte index is not index / 8")
-            else:
-                r3.fail(("byte-index", "get", "shape"), "cannot extract the byte index of get_unchecked")
-    lenb = F.mir(SL + "::len")
-    if r3.anchor(lenb, SL + "::len"):
-        e = eb.ret_expr(lenb, None, 0, frozenset())
-        ok = e is not None and e[0] == "bin" and e[1].startswith("Mul") and any(x[0] == "const" and x[1] == 8 for x in (e[2], e[3]))
-        r3.site("len = %s" % (M.expr_str(e) if e else None), lenb.rec["span"])
-        r3.require(ok, ("len",), "len() is not <byte count> * 8")
-    r3.floor(4)
+                n_get += 1
+                got = q.ret
+                if got is not bool(base[i // 8] & want_bit):
+                    r1.fail(("get_unchecked", "mask"), "get_unchecked(%d) on the store %s reads %s; bit %d (byte %d, mask 0x%02x) is %s" % (
+                        i, ["0x%02x" % x for x in base], got, i, i // 8, want_bit, bool(base[i // 8] & want_bit)))
+                    r3.fail(("byte-index", "get"), "get_unchecked does not read byte index / 8 at mask 0x80 >> (index %% 8)")
+                    stop = True
+                    break
+                for val in (True, False):
+                    q, after, why = run(sfn, base, i, val)
+                    if q is None:
+                        r1.fail(("set_unchecked", "unexpected-store", "not-evaluable"), "set_unchecked could not be evaluated on a concrete store: %s" % why)
+                        stop = True
+                        break
+                    n_set += 1
+                    want = list(base)
+                    want[i // 8] = (want[i // 8] | want_bit) if val else (want[i // 8] & (0xFF ^ want_bit))
+                    if [x if isinstance(x, int) else None for x in after] != want:
+                        others = any(after[k_] != base[k_] for k_ in range(NB) if k_ != i // 8)
+                        key = ("set_unchecked", "clear-mask") if not val else ("set_unchecked", "mask")
+                        r1.fail(key, "set_unchecked(%d, %s) turns the store %s into %s; expected %s (only bit %d %s)" % (
+                            i, val, ["0x%02x" % x for x in base], [("0x%02x" % x) if isinstance(x, int) else str(x) for x in after], ["0x%02x" % x for x in want], i, "set" if val else "cleared"))
+                        if others or not isinstance(after[i // 8], int) or (after[i // 8] ^ base[i // 8]) & ~want_bit & 0xFF == 0:
+                            r3.fail(("byte-index", "set" if val else "clear"), "set_unchecked does not address byte index / 8 at mask 0x80 >> (index %% 8)") if others else None
+                        stop = True
+                        break
+                if stop:
+                    break
+            if stop:
+                break
+        r1.site("set_unchecked: %d concrete writes (every bit offset, both values, %d byte patterns, %d-byte store) each change exactly the addressed bit" % (n_set, len(byte_values), NB))
+        r1.site("get_unchecked: %d concrete reads agree with the bit at byte index/8, mask 0x80 >> index%%8" % n_get)
+        r3.site("byte index = index / 8, mask = 0x80 >> (index %% 8): implied by the %d reads and %d writes over a %d-byte store" % (n_get, n_set, NB))
+        r1.require(stop or (n_set >= 2 * 8 * NB * len(byte_values) and n_get >= 8 * NB * len(byte_values)), ("set_unchecked", "coverage"), "only %d writes / %d reads were evaluated" % (n_set, n_get))
+        r1.floor(2)
+    if r3.anchor(F.hir(lfn), lfn):
+        okl = True
+        for nb in (0, 1, 2, 5, 16384):
+            st = sym.St(SL, {"0": [0] * nb})
+            try:
+                ps = [q for q in sym.Evaluator(F, inline_depth=3, concrete_vec=True).explore(lfn, args=lambda st=st: [st], max_paths=5)]
+            except (sym.Abort, sym.TooManyPaths) as e:
+                ps = []
+            if len(ps) != 1 or ps[0].ret != nb * 8:
+                okl = False
+                r3.fail(("len",), "len() of a %d-byte store is %s, not %d" % (nb, ps[0].ret if ps else None, nb * 8))
+                break
+        r3.site("len = bytes * 8 (stores of 0, 1, 2, 5, 16384 bytes): %s" % okl)
+    r3.floor(2)
 
     # ---------------------------------------------------------------- R2 precondition of *_unchecked (T2)
     r2 = R.rule("C12-R2", "T2", "every call of get_unchecked/set_unchecked is control-dependent on `index < self.len()`")
